@@ -1,0 +1,12 @@
+//go:build !verif
+
+// Package verifhook provides verification hook points. Without the "verif"
+// build tag every function is an empty, inlinable no-op.
+package verifhook
+
+// At marks a named point; a no-op in regular builds.
+func At(point string, kv ...any) {}
+
+// Fault marks a named point at which a verification harness may inject an
+// error; always nil in regular builds.
+func Fault(point string, kv ...any) error { return nil }
